@@ -683,6 +683,101 @@ def gen_corrupt(rng, tier):
     return cases
 
 
+def subtree_dirs(t, out=None):
+    out = [] if out is None else out
+    if isinstance(t, RDir):
+        out.append(t)
+        for _, ch in t.entries:
+            subtree_dirs(ch, out)
+    return out
+
+
+def gen_offpath(rng, tier):
+    """Path locality (Thm/C12Find.lean: C12_find_local, C12_helpers_local, C12_lookup_off_cycle).
+    A well-formed tree in the classic layout gets one more top-level directory, stored LAST (the victim), which is then
+    broken inside: cycles to itself / to the root, dangling sub-directories, data entries and names, wild counts — only
+    in the entry records of the victim's table and in the tables and headers of the directories below it (the victim's
+    own header and the root's record for it stay intact).  The whole section represents no tree any more, `fsck`
+    fails; yet every lookup whose path does not enter the victim must answer what the ORIGINAL tree says.
+    `tree=` is the original tree, `local=1` tells the oracle to hold the implementation to its answer although the
+    section does not represent it (`hyp=0`)."""
+    cases = []
+    n = 30 if tier == "quick" else 800
+    for i in range(n):
+        if rng.random() < 0.6:
+            t0, groups = typical_tree(rng)
+        else:
+            t0, groups = rand_tree(rng, rng.choice([1, 2, 3]), maxn=3), []
+        victim = rand_tree(rng, rng.choice([1, 2, 2, 3]), maxn=3)
+        if not victim.entries:
+            victim = RDir([(1, RData(b"v", 0))], 0)
+        vname = rng.choice([4000 + rng.randrange(50), 0x7FFFFFF0 + rng.randrange(8)])
+        t = RDir(t0.entries + [(vname, victim)], t0.named())
+        dir_va = rng.choice([0, 0x2000, 0x10000])
+        lay = Layout()
+        sec, lay = encode_classic(rng, t, dir_va, lay)
+        if len(sec) > 4000:
+            continue
+        b = bytearray(sec)
+        size = len(b)
+        where = {id(d): o for o, d in lay.dirs}
+        vdirs = subtree_dirs(victim)
+        voff = where[id(victim)]
+        for _ in range(rng.choice([1, 1, 2, 4])):
+            d = rng.choice(vdirs)
+            o = where[id(d)]
+            kinds = ["self", "root", "victim", "dangle_dir", "dangle_data", "dangle_name", "odd", "flip"]
+            if d is not victim:
+                kinds += ["counthuge", "count0"]
+            kind = rng.choice(kinds)
+            if kind in ("counthuge", "count0"):
+                put16(b, o + rng.choice([12, 14]), 0xFFFF if kind == "counthuge" else 0)
+                continue
+            if not d.entries:
+                continue
+            e = o + 16 + 8 * rng.randrange(len(d.entries))
+            if kind == "self":
+                put32(b, e + 4, HI | o)
+            elif kind == "root":
+                put32(b, e + 4, HI | 0)
+            elif kind == "victim":
+                put32(b, e + 4, HI | voff)
+            elif kind == "dangle_dir":
+                put32(b, e + 4, HI | rng.choice([size, size - 8, size + 16, 0x7FFFFFFC, 0x1000]))
+            elif kind == "dangle_data":
+                put32(b, e + 4, rng.choice([size, size - 12, size + 16, 0x7FFFFFFC]))
+            elif kind == "dangle_name":
+                put32(b, e, HI | rng.choice([size, size - 1, size + 2, 0x7FFFFFFE]))
+            elif kind == "odd":
+                put32(b, e + 4, get32(b, e + 4) ^ rng.choice([1, 2, 3]))
+            elif kind == "flip":
+                put32(b, e + 4, get32(b, e + 4) ^ HI)
+        sec2 = bytes(b)
+        tt = tree_text(t)
+
+        def mk(pre, t0=t0, groups=groups, tt=tt, vname=vname):
+            ops = lookup_ops(rng, t0, pre, tier) + helper_ops(pre, [(k, g, None) for k, g, _ in groups])
+            ops.append("%s get %s %s" % (pre, hx(b"/"), name_arg(vname)))          # the victim itself: its header is intact
+            ops.append("%s find %s" % (pre, hx(b"/#%d" % vname)))
+            # grp_write reassembles files: it has no `spec=` and is compared with the model only
+            return [o + ("" if " grp_write " in o or o.startswith("grp_write") else " tree=" + tt + " local=1") for o in ops]
+        if rng.random() < 0.7 or dir_va < 0x2000:
+            cases.append(mk("res_raw 0x%x %s" % (dir_va, hx(sec2))))
+        else:
+            cases += image_cases(rng, sec2, dir_va, mk)
+    # the witness of C12_lookup_off_cycle, byte for byte
+    cyc = bytes([0,0,0,0, 0,0,0,0, 0,0,0,0, 0,0,2,0,   3,0,0,0, 32,0,0,0x80,   9,0,0,0, 80,0,0,0x80,
+                 0,0,0,0, 0,0,0,0, 0,0,0,0, 0,0,1,0,   1,0,0,0, 56,0,0,0x80,
+                 0,0,0,0, 0,0,0,0, 0,0,0,0, 0,0,1,0,   9,4,0,0, 112,0,0,0,
+                 0,0,0,0, 0,0,0,0, 0,0,0,0, 0,0,2,0,   1,0,0,0, 80,0,0,0x80,   2,0,0,0, 0,0x10,0,0x80,
+                 128,0,0,0, 4,0,0,0, 0,0,0,0, 0,0,0,0,
+                 0xDE,0xAD,0xBE,0xEF])
+    pre = "res_raw 0 %s" % hx(cyc)
+    cases.append(std_ops(pre, "fail") + ["%s find %s" % (pre, hx(q)) for q in (b"/#3/#1/#1033", b"/#ICON/#1/#1033", b"/#3/#1", b"/#9/#1/#1/#1", b"/#9/#2")] +
+                 ["%s find_resource i:3 i:1" % pre, "%s find_resource i:3 i:1 i:1033" % pre, "%s find_resource i:9 i:1" % pre, "%s icons" % pre])
+    return cases
+
+
 def gen_small(rng, tier):
     """tiny and degenerate sections, directory placement in the image"""
     cases = []
